@@ -207,7 +207,7 @@ class Model:
         if hasattr(self,'project_closures'):
             lp_vars_string += 'Project closure variables:\n'
             for var in self.project_closures:
-                if (var.varValue > 0.9):
+                if (var.varValue is not None and var.varValue > 0.9):
                     lp_vars_string += '1 '
                 else:
                     lp_vars_string += '0 '
